@@ -51,6 +51,8 @@ end Cmpr
 /-- Errors the modelled code can raise. -/
 inductive Err where
   | ValueError | TypeError | InvalidConstraintsError | KeyError
+  -- raised only by the run-time of the translated code (`Vers/PyRt.lean`)
+  | AttributeError | IndexError | OutOfFuel
   deriving DecidableEq, Repr, Inhabited
 
 /-- The results of the six rich comparisons between two versions of one scheme, as Python
